@@ -66,9 +66,13 @@ def parseHexList (s : String) : Option (List Str) :=
 def b01 (b : Bool) : String := if b then "1" else "0"
 
 def keptField (res : Result) (p : Page) : String :=
-  let b := bands res.cfg p.frags p.height
-  let cl := isCharacterLevel p.frags
-  let kept := p.frags.zipIdx.filter fun fi => !isInHeaderFooter res p.index b cl fi.1
+  let kept :=
+    if isCharacterLevel p.frags then
+      let gone := removedLines res p.index p.frags p.height
+      p.frags.zipIdx.filter fun fi => !(gone.any fun g => g.contains fi.1)
+    else
+      let b := bands res.cfg p.frags p.height
+      p.frags.zipIdx.filter fun fi => !isInHeaderFooter res p.index b fi.1
   if kept.map (·.1) != filterFragments res p.index p.frags p.height then "model-inconsistent"
   else if kept.isEmpty then "-"
   else ",".intercalate (kept.map fun fi => toString fi.2)
